@@ -54,6 +54,10 @@ struct E
         if (!live().erase(this))
             errors()++;
     }
+    bool operator<(const E& o) const
+    {
+        return v < o.v;
+    }
 };
 
 // uniform access to "the E behind a visited value"
@@ -235,7 +239,8 @@ static std::vector<int> values(C& c)
     return a;
 }
 
-template <typename Make>
+// `writable`: elements can be modified through the adaptor (not for std::set); `reversible`: the kind has rbegin()
+template <typename Make, bool writable = true>
 static Fails run_container(const std::string& kind, Make make, int n, int cat, int adaptor, int style)
 {
     Fails f;
@@ -250,16 +255,18 @@ static Fails run_container(const std::string& kind, Make make, int n, int cat, i
             if (cat == 0)
             {
                 judge_enum(walk_enum(nitro::lang::enumerate(c), style), want, &at, what, f);
-                // write through the adaptor, read the container
-                int k = 0;
-                for (auto p : nitro::lang::enumerate(c))
-                    put(p.value(), 100 + static_cast<int>(p.index()) + (k++ * 0));
-                auto after = values(c);
-                std::vector<int> exp;
-                for (size_t i = 0; i < want.size(); i++)
-                    exp.push_back(100 + static_cast<int>(i));
-                if (after != exp)
-                    f.push_back("enumerate-writes-not-visible-in-container: " + what + " container shows " + vs(after) + " expected " + vs(exp));
+                if constexpr (writable)
+                {
+                    // write through the adaptor, read the container
+                    for (auto p : nitro::lang::enumerate(c))
+                        put(p.value(), 100 + static_cast<int>(p.index()));
+                    auto after = values(c);
+                    std::vector<int> exp;
+                    for (size_t i = 0; i < want.size(); i++)
+                        exp.push_back(100 + static_cast<int>(i));
+                    if (after != exp)
+                        f.push_back("enumerate-writes-not-visible-in-container: " + what + " container shows " + vs(after) + " expected " + vs(exp));
+                }
             }
             else if (cat == 1)
             {
@@ -274,15 +281,18 @@ static Fails run_container(const std::string& kind, Make make, int n, int cat, i
             if (cat == 0)
             {
                 judge_rev(walk_rev(nitro::lang::reverse(c), style), want, &at, what, f);
-                int i = 0;
-                for (auto& e : nitro::lang::reverse(c))
-                    put(e, 200 + i++);
-                auto after = values(c);
-                std::vector<int> exp;
-                for (size_t k = 0; k < want.size(); k++)
-                    exp.push_back(200 + static_cast<int>(want.size() - 1 - k));
-                if (after != exp)
-                    f.push_back("reverse-writes-not-visible-in-container: " + what + " container shows " + vs(after) + " expected " + vs(exp));
+                if constexpr (writable)
+                {
+                    int i = 0;
+                    for (auto& e : nitro::lang::reverse(c))
+                        put(e, 200 + i++);
+                    auto after = values(c);
+                    std::vector<int> exp;
+                    for (size_t k = 0; k < want.size(); k++)
+                        exp.push_back(200 + static_cast<int>(want.size() - 1 - k));
+                    if (after != exp)
+                        f.push_back("reverse-writes-not-visible-in-container: " + what + " container shows " + vs(after) + " expected " + vs(exp));
+                }
             }
             else if (cat == 1)
             {
@@ -333,6 +343,13 @@ static std::map<int, E> mk_map(int n)
     std::map<int, E> c;
     for (int i = n - 1; i >= 0; i--)
         c.emplace(i * 3, E(10 + i));
+    return c;
+}
+static std::set<E> mk_set(int n)
+{
+    std::set<E> c;
+    for (int i = n - 1; i >= 0; i--)
+        c.emplace(10 + i);
     return c;
 }
 static nitro::lang::fixed_vector<E> mk_fv_full(int n)
@@ -511,6 +528,13 @@ static std::vector<Case> cases()
                         cs.push_back({ kind + "/" + std::to_string(n) + "/" + std::to_string(cat) + "/" + std::to_string(adaptor) + "/" + std::to_string(style),
                                        [=] { return run_container(kind, make, n, cat, adaptor, style); } });
     };
+    // std::set: elements are const, so only order, indices, aliasing by address and lifetime are judged
+    for (int n = 0; n <= 4; n++)
+        for (int cat = 0; cat < 3; cat++)
+            for (int adaptor = 0; adaptor < 2; adaptor++)
+                for (int style = 0; style < (adaptor == 0 ? 4 : 2); style++)
+                    cs.push_back({ "set/" + std::to_string(n) + "/" + std::to_string(cat) + "/" + std::to_string(adaptor) + "/" + std::to_string(style),
+                                   [=] { return run_container<decltype(&mk_set), false>("set", mk_set, n, cat, adaptor, style); } });
     add_kind("vector", mk_vector, 0, 4);
     add_kind("deque", mk_deque, 0, 4);
     add_kind("list", mk_list, 0, 4);
